@@ -165,11 +165,18 @@ def _run_path(unit, decisions, contracts, ctx):
     post_env['result'] = result
     post_env['effects'] = ctx.effects
     post_env['locals_'] = frame.locals
+    post_env['hooks_'] = ip.hooks
     if outcome == 'return':
         for label, fn in unit.ensures:
             clo_s = ip.to_closure(fn)
             names = [p.arg for p in clo_s.node.args.args]
-            t = api.call_spec(ip, fn, {n: post_env[n] for n in names})
+            try:
+                t = api.call_spec(ip, fn, {n: post_env[n] for n in names})
+            except Raised as r:
+                # the clause itself is not defined on this outcome (e.g. indexes a missing row): it does not hold
+                ob = ctx.oblige(f"{unit.name}/ensures.{label}", False, kind='ensures', assume_after=False)
+                ob.extra = f"contract clause raised {r.exc!r}"[:200]
+                continue
             ctx.oblige(f"{unit.name}/ensures.{label}", t, kind='ensures', assume_after=False)
     else:
         allowed = None
